@@ -206,6 +206,15 @@ def r3_special_vectors(ctx):
             good = astx.u(augs[0].value) == f"{b}.weight" and astx.u(augs[0].target.slice) == c and astx.u(loops[0].iter) == s \
                 and astx.u(loops[1].iter) == f"{b}.ranking" and isinstance(augs[0].op, ast.Add)
     ctx.check(good, f, augs[0] if augs else f.node, "mentions adds the ballot weight once per listed candidate", "", "mentions no longer adds weight per listed candidate")
+    if len(augs) == 1 and isinstance(augs[0].target.value, ast.Name):
+        dv = astx.unique_def(f.node, augs[0].target.value.id)
+        zero = isinstance(dv, ast.DictComp) and astx.u(dv.value) in ("Fraction(0)", "Fraction(0, 1)", "Fraction()") and astx.u(dv.generators[0].iter).endswith(".candidates") \
+            and not dv.generators[0].ifs and astx.u(dv.key) == astx.u(dv.generators[0].target)
+        if isinstance(dv, ast.DictComp):
+            ctx.check(zero, f, dv, "mention totals start at Fraction(0) for every candidate of the profile", "",
+                      f"the mention totals start from `{astx.u(dv)[:70]}`, not from an exact zero for every candidate of the profile")
+        else:
+            ctx.undecided(f, dv or f.node, "mention totals start at Fraction(0) for every candidate of the profile", f"accumulator initialised by `{astx.u(dv)[:70] if dv is not None else 'more than one assignment'}`")
     # Plurality-family slots
     for cname, want in (("Plurality", "first_place_votes"), ("STV", "first_place_votes"), ("CondoBorda", "borda_scores"), ("GeneralRating", "score_profile_from_ballot_scores")):
         cls = prog.find_class(cname)
@@ -576,4 +585,14 @@ FAULTS += [
 ]
 BENIGN += [
     ("slice end held in a new temporary", [(UT, _SLICE, "                position_end = current_ind + position_size\n                local_score_vector = score_vector[current_ind:position_end]\n")]),
+]
+
+# mention totals start from zero (clause of C04.R3)
+_MENT = "    mentions = {c: Fraction(0) for c in profile.candidates}\n"
+FAULTS += [
+    ("mention totals start at one", [("src/votekit/utils.py", _MENT, "    mentions = {c: Fraction(1) for c in profile.candidates}\n")], "C04.R3"),
+    ("mention totals only for a part of the candidates", [("src/votekit/utils.py", _MENT, "    mentions = {c: Fraction(0) for c in profile.candidates if c}\n    mentions.update({c: Fraction(1) for c in profile.candidates if not c})\n")], "C04.R3"),
+]
+BENIGN += [
+    ("mention totals start at Fraction()", [("src/votekit/utils.py", _MENT, "    mentions = {cand: Fraction() for cand in profile.candidates}\n")]),
 ]
